@@ -336,6 +336,9 @@ type Memory struct {
 	Saved          atomic.Uint64
 	// Value of Saved at the end of the last GC
 	SavedGc atomic.Uint64
+	// storedNextId is the NextId of the machine record written last. Accessed
+	// only inside write transactions (which bbolt runs one at a time).
+	storedNextId uint64
 
 	// sync lock (read: flush, write: sync)
 	syncMx sync.RWMutex
@@ -738,14 +741,18 @@ func (m *Memory) writeDb(rLocked bool) {
 				bTxs = b.Bucket([]byte(BuckTransitions))
 			}
 
-			// update machine
-			enc, err := m.encode(machRec)
-			if err != nil {
-				return err
-			}
-			err = bMachs.Put(machIdBt, enc)
-			if err != nil {
-				return err
+			// update machine, but never replace a newer record (the forked batches
+			// can land out of order)
+			if machRec.NextId >= m.storedNextId {
+				enc, err := m.encode(machRec)
+				if err != nil {
+					return err
+				}
+				err = bMachs.Put(machIdBt, enc)
+				if err != nil {
+					return err
+				}
+				m.storedNextId = machRec.NextId
 			}
 
 			for i, recTime := range times {
